@@ -53,6 +53,9 @@ where
     #[error("attempted to add group {0} with manage access")]
     ManagerGroupsNotAllowed(ID),
 
+    #[error("operation {1} creates group {0} which already exists at its dependencies")]
+    GroupAlreadyExists(ID, OP),
+
     #[error("resolver error: {0}")]
     Resolver(RS::Error),
 }
@@ -616,6 +619,21 @@ where
         } else {
             y
         };
+
+        // A group can only be created once: a "create" for a group which already exists in the
+        // state the author claims to have seen would silently replace its membership, whoever
+        // the author is.
+        if operation.action().is_create()
+            && temp_y
+                .inner
+                .current_state()
+                .contains_key(&operation.group_id())
+        {
+            return Err(GroupCrdtError::GroupAlreadyExists(
+                operation.group_id(),
+                operation.id(),
+            ));
+        }
 
         // Detect if this operation would cause a nested group cycle.
         if temp_y.inner.would_create_cycle(operation) {
